@@ -117,6 +117,59 @@ func C01(x *Idx) []V {
 				}
 				if !okc {
 					out = append(out, V{"C01", "launched-before-condition", f("%s launched at seq %d (inst %d) before dependency %s met %s", proc, in.Launch, in.Inst, d.On, d.Cond)})
+					continue
+				}
+				// the clear case of "ready": the dependent was created by a request (seq c) while an
+				// instance of the dependency, itself created by an earlier request (seq r), was alive, and
+				// that instance is still alive at the launch: the success must be this instance's, not one
+				// an earlier instance left behind
+				if d.Cond == CondHealthy && !x.Touched() {
+					c := -1
+					for i := in.Launch - 1; i >= 0; i-- {
+						if e := x.Ev[i]; e.Kind == world.EvLaunch && e.Proc == proc {
+							break
+						}
+						if isStartReq(x.Ev[i], proc) {
+							c = i
+							break
+						}
+					}
+					if c < 0 {
+						continue
+					}
+					if rt := x.RetOf(c); rt < 0 || !strings.HasSuffix(x.Ev[rt].Text, " ok") {
+						continue // the request created nothing: this is a relaunch by policy
+					}
+					r := -1
+					for i := c - 1; i >= 0; i-- {
+						if isStartReq(x.Ev[i], d.On) {
+							r = i
+							break
+						}
+					}
+					if r < 0 {
+						continue
+					}
+					var live *Inst
+					n := 0
+					for _, di := range x.Insts[d.On] {
+						if di.Launch > r && di.Launch < c {
+							n++
+							if di.Exit < 0 || di.Exit > in.Launch {
+								live = di
+							}
+						}
+					}
+					// exactly one command since the request: no policy relaunch in between (the readiness
+					// of the instance object outlives its commands)
+					if live == nil || n != 1 {
+						continue
+					}
+					if x.has(r, in.Launch, func(e world.Event) bool {
+						return e.Kind == world.EvProbe && e.Proc == d.On && e.Text == "ok"
+					}) < 0 {
+						out = append(out, V{"C01", "launched-on-stale-readiness", f("%s (created by the request at seq %d) launched at seq %d while the dependency %s - restarted by the request at seq %d, command alive since seq %d - had not passed its probe once since then (process_healthy)", proc, c, in.Launch, d.On, r, live.Launch)})
+					}
 				}
 			}
 		}
